@@ -355,6 +355,38 @@ def punch(b, env, img, tmp):
     return len(victims)
 
 
+def linkdir(b, env, img, tmp, nlinks=44):
+    """A multi-block directory with a high inode number whose entries all point at one file with a
+    low inode number: when a shrink renumbers the directory, no entry of its later blocks changes,
+    yet (metadata_csum) every block's checksum is keyed on the directory's inode number."""
+    with I.Image(img) as im:
+        dig = T.tree_digest(im)
+        ph = phys_map(im)
+    ok = re.compile(rb"^[\w.,+=@/~-]+$")
+    dirs = sorted(((ph[p][0], p) for p, d in dig.items() if d["ino_type"] == oct(I.S_IFDIR) and p in ph
+                   and ok.match(p) and p != b"/"), reverse=True)
+    files = sorted((ph[p][0], p) for p, d in dig.items() if d["ino_type"] == oct(I.S_IFREG) and p in ph
+                   and ok.match(p) and d["nlink"] == 1 and ph[p][0] >= 12)
+    if not dirs or not files:
+        return 0
+    parent = dirs[0][1].decode()
+    target = files[0][1].decode()
+    hl = parent.rstrip("/") + "/hl"
+    lines = ["mkdir %s" % hl]
+    # debugfs ln does not grow a directory by itself
+    lines += ["expand_dir %s" % hl] * (nlinks * 192 // 900 + 2)
+    for k in range(nlinks):
+        lines.append("ln %s %s/%s" % (target, hl, ("L%03d" % k) + "x" * 180))
+    lines.append("sif %s links_count %d" % (target, nlinks + 1))
+    sfile = os.path.join(tmp, "linkdir.script")
+    with open(sfile, "w") as f:
+        f.write("\n".join(lines) + "\n")
+    r = run.run([b.tool("debugfs"), "-w", "-f", sfile, img], env=env, timeout=300)
+    if r.rc != 0:
+        raise zoo.ZooError("linkdir failed: " + r.etext[-300:])
+    return nlinks
+
+
 def w_prep(arg):
     root, name, wdir = arg
     b = build.Build(root, "plain")
@@ -370,6 +402,7 @@ def w_prep(arg):
         zoo.build_image(b, spec, img, tmp)
         if spec.get("punch"):
             info["punched"] = punch(b, env, img, tmp)
+            info["linkdir"] = linkdir(b, env, img, tmp)
         r = run.run([b.tool("e2fsck"), "-fn", img], env=env, timeout=300)
         py = fsckpair.pycheck(img)
         if r.rc != 0 or py[0]:
